@@ -17,6 +17,7 @@ of inserts completed before / begun before the observation, on the traces (Pytho
 untraced free-running stress runs (evaluated in the harness)."""
 import json
 import os
+import time
 
 import vlib
 
@@ -24,7 +25,7 @@ META = {
     "category": "proof",
     "technique": "invariant proof over all interleavings of a small-step model (Coq) + trace acceptance of the real code (controlled scheduler, exhaustive small scopes) + direct oracle",
     "text": "Coq theorems (SkipList/Props_C17.v, closed under the global context) over small-step models of skipfree::SkipList and listfree::List: for every number of threads, every program and EVERY schedule at the granularity of single get_next/set_next/cas_next steps (sequential consistency assumed) the level chains are strictly sorted and gap-free, level l+1 is a sub-chain of level l, in-flight inserts keep valid predecessor/successor hypotheses, nothing panics; hence no returned insert is ever missed by a later contains or full iteration, iteration is strictly increasing and exactly-once, contains/seek/first/next/prev return the nearest key of the key set at their last read, iterator positions are consistent from one call to the next; the prepend list yields the content at its head load (newest first, once); with the F4 repair a held iterator never touches freed nodes. The models are tied to the code by replaying recorded real multi-threaded runs (every atomic operation hooked) in the extracted model, which must predict every event, result and the final content, plus a model-free direct oracle.",
-    "note": "Trusted: Coq kernel; extraction (ExtrOcamlBasic) + ocaml/skiplist driver; harness c17 (scheduler, hooks, oracle); the add-only cfg(blue_verif) hooks in skipfree/listfree. Assumed: sequential consistency of the atomic operations (Release/Acquire/SeqCst on the hardware's memory model is not modelled); Rust's memory safety outside the modelled ownership discipline; the allocator never reuses a live node's address. Keys are u64 in the harness, unbounded N in the model (only compared). Lock-freedom/termination is not claimed.",
+    "note": "EVERY TRACED RUN IS SERIALISED: in sk-sched/ls-sched the gate lets exactly one thread run between two atomic operations and in sk-free/ls-free a global lock is held around each one, so the harness ENFORCES sequential consistency there and treats each hooked operation (get_next, set_next, cas_next, head load, head CAS) as atomic - an operation that is hooked as one step but is not atomic in the source (e.g. a CAS rewritten as load+store) is invisible to the traced stages. Only the untraced stages (sk-stress, sk-hammer, ls-stress, ls-hammer, sk-own: hooks off or registry only, real threads) execute with the hardware's real memory ordering, and that hardware is x86-64 (TSO) only; they are judged by the direct oracle alone. Trusted: Coq kernel; extraction (ExtrOcamlBasic) + ocaml/skiplist driver; harness c17 (scheduler, hooks, oracle); the add-only cfg(blue_verif) hooks in skipfree/listfree. Assumed: sequential consistency of the atomic operations (Release/Acquire/SeqCst on the hardware's memory model is not modelled); Rust's memory safety outside the modelled ownership discipline; the allocator never reuses a live node's address. Keys are u64 in the harness, unbounded N in the model (only compared). Lock-freedom/termination is not claimed.",
 }
 
 PROPS = "theories/SkipList/Props_C17.v"
@@ -622,8 +623,8 @@ def run(chk):
         for ln in c.get("lines", []):
             m = ln.split()[0]
             (sk_lines if m in ("sk-sched", "sk-free") else ls_lines if m in ("ls-sched", "ls-free") else
-             life_lines if m == "sk-life" else stress_lines).append(ln)
-    n_sched = 4000 if quick else 40000
+             life_lines if m == "sk-life" else stress_lines).append(ln)   # hammer lines run with the stress lines
+    n_sched = 3000 if quick else 40000
     n_free = 500 if quick else 4000
     for i in range(n_sched):
         maxh = rng.choice([1, 2, 2, 3, 3, 4, default_maxh, default_maxh])
@@ -653,6 +654,20 @@ def run(chk):
     for i in range(40 if quick else 300):
         progs = gen_ls_progs(rng, rng.choice([3, 4, 8]), rng.range(100, 1500), stats)
         stress_lines.append("ls-stress 0 r0 | %s" % " / ".join(",".join(p) for p in progs))
+    # hammer: many short rounds, all threads inserting into ONE gap at the same moment, hooks off
+    # (real threads, real memory ordering): the stage that sees an operation the hooks believe to be
+    # atomic (cas_next, the head CAS of listfree) not being atomic
+    hammer_lines = []
+    for i in range(28 if quick else 250):
+        maxh = rng.choice([1, 2, 4, default_maxh, default_maxh])
+        nth = rng.choice([2, 2, 3, 4, 4, 6, 8])
+        hammer_lines.append("sk-hammer %d r%d | %d %d %d" % (maxh, rng.below(1 << 32), nth, 1200 if quick else 3000, rng.range(3, 12)))
+    # ownership under real threads: SkipList::drop runs on one thread while iterators and iterator
+    # clones are alive on others (node-lifetime registry on)
+    for i in range(60 if quick else 1500):
+        hammer_lines.append("sk-own %d r%d | %d %d" % (rng.choice([2, default_maxh]), rng.below(1 << 32), rng.choice([1, 2, 3, 4, 8]), rng.range(1, 60)))
+    for i in range(8 if quick else 100):
+        hammer_lines.append("ls-hammer 0 r0 | %d %d %d" % (rng.choice([2, 3, 4, 8]), 1500 if quick else 4000, rng.range(3, 12)))
     for i in range(1500 if quick else 20000):
         life_lines.append("sk-life %d r0 | %s" % (rng.choice([2, default_maxh]), gen_life(rng, stats)))
     # exhaustive small scopes: all schedules of two or three short programs on the real code
@@ -674,15 +689,22 @@ def run(chk):
             ("ls-sched 0 x%d | p1,p2 / p3 / T", 400000),
             ("ls-sched 0 x%d | p1 / p2 / T,T", 400000),
         ]
-    cap = 15000 if quick else None
+    cap = 8000 if quick else None
     for pat, lim in exh:
         exh_lines.append(pat % (min(lim, cap) if cap else lim))
 
     # ---------------------------------------------------------------- run
+    tm = {}
+    t0 = time.time()
+    tm["proof_and_builds_s"] = round(t0 - chk.t0, 1)
     res_sk = run_harness(hx, sk_lines + [l for l in exh_lines if l.startswith("sk-")], chk.work, "sk")
     res_ls = run_harness(hx, ls_lines + [l for l in exh_lines if l.startswith("ls-")], chk.work, "ls")
+    tm["traced_runs_s"] = round(time.time() - t0, 1)
+    t0 = time.time()
     n1, nt1 = check_traced("S", res_sk, mx, chk, stats, bad, "model_sk")
     n2, nt2 = check_traced("L", res_ls, mx, chk, stats, bad, "model_ls")
+    tm["model_and_oracle_s"] = round(time.time() - t0, 1)
+    t0 = time.time()
 
     res_st = run_harness(hx, stress_lines, chk.work, "stress", per_line_timeout=300, max_restarts=1)
     for ln, outl in res_st:
@@ -697,6 +719,23 @@ def run(chk):
         else:
             bad["prop"].append({"kind": "property-stress", "what": o[:400], "harness_line": ln[:3000],
                                 "note": "free-running threads: the schedule is not reproducible; re-run the line several times"})
+    res_h = run_harness(hx, hammer_lines, chk.work, "hammer", per_line_timeout=300, max_restarts=1)
+    for ln, outl in res_h:
+        o = outl[0]
+        if ln.startswith("sk-own"):
+            stats["own_runs"] += 1
+            if not o.startswith("OK") and not o.startswith("NOT-RUN"):
+                bad["prop"].append({"kind": "property-lifetime", "what": "an iterator (or clone) held on one thread while the list was dropped on another: " + o[:400], "harness_line": ln})
+            continue
+        stats["hammer_runs"] += 1
+        if o.startswith("OK"):
+            stats["hammer_rounds"] += int(o.split()[1])
+            stats["hammer_keys"] += int(o.split()[3])
+        elif o.startswith("NOT-RUN"):
+            stats["not_run"] += 1
+        else:
+            bad["prop"].append({"kind": "property-hammer", "what": o[:500], "harness_line": ln,
+                                "note": "free-running threads, hooks off: the schedule is not reproducible, but the failure rate per line is high; re-run the line"})
     res_life = run_harness(hx, life_lines, chk.work, "life")
     for ln, outl in res_life:
         o = outl[0]
@@ -708,13 +747,15 @@ def run(chk):
             bad["prop"].append({"kind": "property-lifetime", "what": "iterator use after the nodes were freed / wrong position: got `%s` want `%s`" % (o[:300], want[:300]),
                                 "harness_line": ln})
 
-    evaluations = n1 + n2 + stats["stress_runs"] + stats["life_cases"]
+    tm["untraced_stages_s"] = round(time.time() - t0, 1)
+    evaluations = n1 + n2 + stats["stress_runs"] + stats["life_cases"] + stats["hammer_rounds"] + stats["own_runs"]
     chk.coverage.update({
         "evaluations": evaluations,
         "distinct_nontrivial": len(nt1) + len(nt2),
-        "rule": "one evaluation = one run of the real code (multi-threaded, every atomic operation hooked, or an untraced stress run, or a lifetime script); non-trivial = a traced run with >= 2 threads, >= 10 atomic steps and >= 2 context switches whose trace the model accepted event by event; distinct = distinct (programs, recorded schedule)",
+        "rule": "one evaluation = one run of the real code (multi-threaded, every atomic operation hooked, or an untraced stress run, or one round of the same-gap hammer, or a lifetime script, or a multi-threaded ownership run); non-trivial = a traced run with >= 2 threads, >= 10 atomic steps and >= 2 context switches whose trace the model accepted event by event; distinct = distinct (programs, recorded schedule)",
         "samples": [sk_lines[len(sk_lines) // 3][:300], ls_lines[len(ls_lines) // 2][:200], life_lines[-1][:200]],
         "input_distribution": dict(stats),
+        "stage_seconds": tm,
         "corpus_cases": sum(len(c.get("lines", [])) for _, c in corpus),
         "traces_validated_against_impl": n1 + n2 - len(bad["corr"]),
         "exhaustive": False,
@@ -724,13 +765,14 @@ def run(chk):
             "Coq 8.16.1 kernel (coqc, full .vo build); vm_compute only in the two Examples and the F4 witness",
             "tools/constants.py (DEFAULT_MAX_HEIGHT re-extracted from skipfree/src/lib.rs)",
             "extraction via ExtrOcamlBasic (no Extract Constant of ours) + ocaml/skiplist/mx_skiplist.ml driver",
-            "harness/src/bin/c17.rs: gate scheduler / lock recorder / stamps + oracle for stress runs / node-lifetime registry",
+            "harness/src/bin/c17.rs: gate scheduler / lock recorder / stamps + oracle for stress runs / same-gap hammer / node-lifetime registry (sequential scripts and multi-threaded ownership runs)",
             "hooks in skipfree/src/verif.rs and listfree/src/verif.rs (add-only, cfg(blue_verif)); the hook reads the cell again after the operation while it holds the exclusion",
             "ghost fields of the model (nlnk, lorder, snap) are never read by the model's control flow (by inspection of Model.v / ModelList.v)",
         ],
     })
     chk.assumptions = [
-        "sequential consistency of get_next (Acquire load), set_next (Release store), cas_next (SeqCst): the C11/hardware memory model is not modelled",
+        "sequential consistency of get_next (Acquire load), set_next (Release store), cas_next (SeqCst): the C11/hardware memory model is not modelled; the traced runs are serialised by the gate / lock (the harness enforces SC), only the untraced stress / hammer / ownership stages run with real memory ordering, on x86-64 (TSO) only",
+        "each hooked operation is atomic in the source (the hook brackets the whole function): checked only by the untraced same-gap hammer, statistically",
         "inserted keys are pairwise distinct (the property's quantifier; a sequential duplicate panics by the assert in insert, concurrent duplicates are both inserted)",
         "heights are an oracle input in 1..MAX_HEIGHT (what random_height returns)",
         "Rust's ownership rules: a dropped handle is not used; allocation returns a fresh node",
@@ -771,7 +813,7 @@ def replay(path):
         want = life_reference(line.split("|", 1)[1])
         print("want    :", want)
         return 0 if o == want else 1
-    if mode.endswith("stress"):
+    if mode.endswith("stress") or mode.endswith("hammer") or mode == "sk-own":
         return 0 if o.startswith("OK") or o.startswith("SKIP") else 1
     rec = parse_record(o)
     if rec is None:
